@@ -273,8 +273,11 @@ func runHTTP(f []string) string {
 		}
 	}
 	deps := core.GunDeps{Ctx: context.Background(), Log: gunLog(opts)}
-	if strings.Contains(opts, "s") { // shared-client: the instance takes its client from the pool WarmUp builds
+	if strings.ContainsAny(opts, "sS") { // shared-client: the instance takes its client from the pool WarmUp builds
 		g.Config.SharedClient.Enabled, g.Config.SharedClient.ClientNumber = true, 2
+		if strings.Contains(opts, "S") {
+			g.Config.SharedClient.ClientNumber = 0 // enabled without a number: one client
+		}
 		shared, err := g.WarmUp(&warmup.Options{Log: zap.NewNop(), Ctx: context.Background()})
 		if err != nil {
 			return "warmuperr"
@@ -504,7 +507,7 @@ func runHScen(f []string) string {
 	defer g.Close()
 	sc := &httpscen.Scenario{Name: name, ID: 3, VariableStorage: emptyStorage{}}
 	if strings.Contains(opts, "m") {
-		sc.MinWaitingTime = 3 * time.Millisecond
+		sc.MinWaitingTime = 25 * time.Millisecond
 	}
 	if f[2] != "-" {
 		for _, st := range strings.Split(f[2], ",") {
@@ -576,6 +579,9 @@ func grpcOpts(conf *grpcgun.GunConfig, opts string) {
 	}
 	if strings.Contains(opts, "s") {
 		conf.SharedClient.Enabled, conf.SharedClient.ClientNumber = true, 2
+	}
+	if strings.Contains(opts, "S") { // enabled without a number: one client
+		conf.SharedClient.Enabled, conf.SharedClient.ClientNumber = true, 0
 	}
 	if strings.Contains(opts, "o") {
 		conf.DialOptions.Authority, conf.DialOptions.Timeout = "verif.authority", 2*time.Second
@@ -683,7 +689,7 @@ func runGScen(f []string) string {
 	}
 	sc := &grpcscen.Scenario{Name: name}
 	if strings.Contains(opts, "m") {
-		sc.MinWaitingTime = 3 * time.Millisecond
+		sc.MinWaitingTime = 25 * time.Millisecond
 	}
 	if f[2] != "-" {
 		for i, st := range strings.Split(f[2], ",") {
@@ -758,10 +764,14 @@ func genGuns(r *vh.Rand, tier string) []string {
 	for st := lo; st <= hi; st++ {
 		c := fmt.Sprintf("http h ok %d %s", st, rndTagging())
 		if st%16 == 5 { // the client taken from the shared pool
+			o := "s"
+			if st%32 == 5 {
+				o = "S"
+			}
 			if strings.Count(c, " ") == 8 {
-				c += " s"
+				c += " " + o
 			} else {
-				c += "s"
+				c += o
 			}
 		}
 		out = append(out, c)
@@ -891,7 +901,7 @@ func genGuns(r *vh.Rand, tier string) []string {
 	out = append(out, "gshoot 74 st99", "gshoot 74 st4294967295", "gshoot 74 unknown", "gshoot - unknown", "gshoot 74 badpayload")
 	// gun options that must not change the sample: answer log filters, log level debug, shared client pool,
 	// dial options, explicit reflection port
-	for _, o := range []string{"a", "w", "e", "v", "s", "o", "p", "vaso", "wsp"} {
+	for _, o := range []string{"a", "w", "e", "v", "s", "S", "o", "p", "vaso", "wsp"} {
 		for _, k := range []string{"st0", "st5", "st13", "unknown", "badpayload"} {
 			out = append(out, fmt.Sprintf("gshoot %s %s %s", vh.HexS(r.Pick([]string{"t", "", "grpc tag"})), k, o))
 		}
